@@ -120,12 +120,63 @@ type verifC08Key struct {
 	nums []float64
 }
 
+// verifC08ConfigVocabulary: the member names a Solana JSON-RPC config object can carry (all methods
+// of the cluster API that this server answers, plus the common ones of the others). A parser may
+// start reading any of them at any time, so every parser is exercised with every one of them, not
+// only with the members it reads today.
+var verifC08ConfigVocabulary = []string{
+	"commitment", "encoding", "maxSupportedTransactionVersion", "transactionDetails", "rewards",
+	"limit", "before", "until", "minContextSlot", "searchTransactionHistory", "dataSlice", "filters",
+}
+
+// verifC08Foreign adds to m one member of the vocabulary that is NOT among the parser's known
+// members (keys), with a value of any of the six dynamic types (strings / numbers: one
+// representative); returns false when no foreign member is chosen.
+func verifC08Foreign(name string, m map[string]any, keys []verifC08Key) bool {
+	var foreign []string
+	for _, v := range verifC08ConfigVocabulary {
+		known := false
+		for _, k := range keys {
+			if k.name == v {
+				known = true
+			}
+		}
+		if !known {
+			foreign = append(foreign, v)
+		}
+	}
+	f := verifChoice(name+".foreign-member", len(foreign)*verifC08NumTypes+1)
+	if f == 0 {
+		return false
+	}
+	f--
+	m[foreign[f/verifC08NumTypes]] = verifC08OfType(name+".foreign", f%verifC08NumTypes, []string{"processed"}, []float64{1})
+	return true
+}
+
 // verifC08Object returns a JSON object over the given member names:
 //   - every subset of the members, each present member well-typed with a value from its pool; or
 //   - exactly one member ill-typed (each of the five other dynamic types) and every subset of the
-//     remaining members present with one well-typed representative.
+//     remaining members present with one well-typed representative; or
+//   - one member of the config vocabulary that the parser does not read today, with a value of each
+//     of the six dynamic types (alone, or next to all known members with representative values).
 func verifC08Object(name string, keys []verifC08Key) map[string]any {
 	m := map[string]any{}
+	if verifC08Foreign(name, m, keys) {
+		if verifChoice(name+".foreign.with-known", 2) == 1 {
+			for _, k := range keys {
+				switch k.want {
+				case verifC08Number:
+					m[k.name] = k.nums[0]
+				case verifC08String:
+					m[k.name] = k.strs[0]
+				default:
+					m[k.name] = true
+				}
+			}
+		}
+		return m
+	}
 	if verifParam("full_product", 0) == 1 {
 		// thorough: every member independently absent | well-typed (every pool value) | ill-typed
 		// (each of the five other dynamic types)
